@@ -201,6 +201,28 @@ def op3(ctx):
         match_tgt = [bb for v, bb in t["arms"] if int(v) == match_val]
         match_tgt = match_tgt[0] if match_tgt else t["otherwise"]
         ok = can == [match_tgt]
+        # ... and the comparison guards the Ok return: without the matching edge (for the kind comparison: also without the 'no expectation given'
+        # edge of the switch on the expected Option) Ok is unreachable from the entry - no path may bypass the comparison
+        cut = {(x, match_tgt)}
+        if role == "freelist-equals-expected":
+            for y, c2 in res.conds.items():
+                if tag(c2) == "discr" and c2[1] == ("param", 0, "freelist"):
+                    t2 = b.blocks[y]["term"]
+                    for v, bb in t2["arms"]:
+                        if int(v) == 0:
+                            cut.add((y, bb))
+                    if not any(int(v) == 0 for v, _ in t2["arms"]):
+                        cut.add((y, t2["otherwise"]))
+        seen, stack = {0}, [0]
+        while stack:
+            u = stack.pop()
+            for w in b.succ[u]:
+                if (u, w) not in cut and w not in seen:
+                    seen.add(w)
+                    stack.append(w)
+        guarded = okbb not in seen
+        yield Ob(key_of("C09-Op3", b.path, role + "-guards-ok"), guarded, "%s: every path to the Ok return takes the matching edge of this comparison%s" %
+                 (role, " (or carries no expected kind)" if role == "freelist-equals-expected" else ""), b.loc(x))
         roles[role] = ok
         yield Ob(key_of("C09-Op3", b.path, role), ok, "%s: only the matching edge reaches the Ok return (edges reaching Ok: %s, matching: bb%d)" % (role, can, match_tgt), b.loc(x))
     for r in ("freelist-decodes", "freelist-equals-expected", "magic-version", "format-version", "magic-text"):
